@@ -18,6 +18,7 @@ type FuncResult struct {
 	Unsupported string
 	ContractErr string
 	Mode        string
+	splitDone   bool
 }
 
 // verifyFunc generates the obligations of fn. Automatic loop-invariant
@@ -147,6 +148,11 @@ func (P *Prog) verifyFuncOnce(fn *ssa.Function, thorough bool, autoOff map[strin
 			cx := mkCtx(st)
 			ex.q.assume(cx.evalBool(c.Expr))
 		}
+		for _, c := range spec.Assumes {
+			cx := mkCtx(st)
+			ex.q.assume(cx.evalBool(c.Expr))
+			ex.trusted["assumed, not checked: "+shortKey(key)+": "+c.Src] = true
+		}
 	}
 	// vacuity: the preconditions must be satisfiable
 	fr.reach = map[*ssa.BasicBlock]string{}
@@ -182,10 +188,17 @@ func (P *Prog) verifyFuncOnce(fn *ssa.Function, thorough bool, autoOff map[strin
 				}
 			}
 		}
+		var lastCx *Ctx
+		var lastSelf string
 		addPost := func(kind, name string, c *Clause, cond string) {
 			if cond == "true" {
 				return
 			}
+			defer func() {
+				if n := len(ex.obls); n > 0 && ex.obls[n-1].Kind == kind {
+					ex.obls[n-1].Clause, ex.obls[n-1].ClCx, ex.obls[n-1].SelfIs = c.Expr, lastCx, lastSelf
+				}
+			}()
 			o := &Obl{Name: shortKey(key) + ":" + kind + ":" + name + "#0", Kind: kind, Pos: ex.q.pos(), Reach: retReach, Cond: cond, Fn: key, Label: c.Label, Text: c.Src, Thor: c.Thor, Mode: c.Mode, Slow: c.Slow}
 			ex.obls = append(ex.obls, o)
 		}
@@ -195,6 +208,7 @@ func (P *Prog) verifyFuncOnce(fn *ssa.Function, thorough bool, autoOff map[strin
 					continue
 				}
 				cx := mkPost()
+				lastCx, lastSelf = cx, ""
 				addPost("post", clauseName(c), c, cx.evalBool(c.Expr))
 			}
 		}
@@ -202,6 +216,11 @@ func (P *Prog) verifyFuncOnce(fn *ssa.Function, thorough bool, autoOff map[strin
 			cx := mkPost()
 			cx.vals["self"] = fr.vals[fn.Params[0]]
 			cx.types["self"] = fn.Params[0].Type()
+			if sp := P.pkgByPath[ti.Pkg]; sp != nil {
+				cx.pkg = sp.Pkg
+			}
+			cx.spec = nil
+			lastCx, lastSelf = cx, fn.Params[0].Name()
 			addPost("objinv", clauseName(ti.Clause), ti.Clause, cx.evalBool(ti.Clause.Expr))
 		}
 		// constructors: a function returning a pointer to an invariant-carrying type establishes the invariant
@@ -257,6 +276,14 @@ func (P *Prog) solveFunc(s *Solver, res *FuncResult, thorough bool, keep func(*O
 // unproved obligation is expected to be a missing precondition rather than a
 // hard proof).
 func (P *Prog) solveFuncBudget(s *Solver, res *FuncResult, thorough bool, keep func(*Obl) bool, deep bool) []*Verdict {
+	if deep && res.Fn != nil && !res.splitDone && instrCount(res.Fn) > 400 && !thorough {
+		// very large functions: contract clauses get the full treatment, the
+		// safety obligations only the cheap stages
+		res.splitDone = true
+		a := P.solveFuncBudget(s, res, thorough, func(o *Obl) bool { return (keep == nil || keep(o)) && (o.Label != "" || o.Cover) }, true)
+		b := P.solveFuncBudget(s, res, thorough, func(o *Obl) bool { return (keep == nil || keep(o)) && o.Label == "" && !o.Cover }, false)
+		return append(a, b...)
+	}
 	if !deep && !thorough {
 		s2 := *s
 		s2.fastOnly = true
